@@ -108,6 +108,8 @@ def scenarios():
         sc.append(dict(api="PtTempo", fault="correlation", k=k))
         sc.append(dict(api="GibbsTempo", fault="spectral-density", k=k))
         sc.append(dict(api="PtTebd", fault="bad-mpo", k=k))
+        sc.append(dict(api="PtTebd-multithread", fault="bad-mpo", k=k))
+        sc.append(dict(api="TwoTimeBathCorrelations", fault="hamiltonian", k=k))
         sc.append(dict(api="compute_correlations", fault="hamiltonian", k=k))
     apis = sorted({s["api"] for s in sc})
     for a in apis:
@@ -223,12 +225,17 @@ def _run_api(case):
             return 0.2 * w
         b3 = oqupy.Bath(np.diag([0.5, -0.5]), oqupy.CustomSD(j, cutoff=2.0, cutoff_type="gaussian", temperature=0.5))
         return oqupy.gibbs_tempo_compute(oqupy.System(0.5 * sx), b3, oqupy.GibbsParameters(N + 2, 1e-6), progress_type=prog)
-    if api == "PtTebd":
+    if api == "TwoTimeBathCorrelations":
+        pt2 = oqupy.pt_tempo_compute(bath, 0.0, end, oqupy.TempoParameters(dt=DT, epsrel=1e-6, dkmax=2), progress_type="silent")
+        bd = oqupy.TwoTimeBathCorrelations(tsys(), bath, pt2, initial_state=rho0)
+        return bd.occupation(1.3, 1.0, progress_type=prog)
+    if api in ("PtTebd", "PtTebd-multithread"):
         chain = oqupy.SystemChain([2, 2])
         chain.add_site_hamiltonian(0, 0.5 * sx)
         chain.add_nn_hamiltonian(0, 0.3 * sz, sz)
         teb = oqupy.PtTebd(oqupy.AugmentedMPS([rho0, rho0]), chain, [_pt(ptk, k), None],
-                           oqupy.PtTebdParameters(dt=DT, epsrel=1e-8, order=2), dynamics_sites=[0])
+                           oqupy.PtTebdParameters(dt=DT, epsrel=1e-8, order=2), dynamics_sites=[0],
+                           backend_config={"parallel": "multithread"} if api.endswith("multithread") else None)
         return teb.compute(N, progress_type=prog)
     raise HarnessError("unknown api " + api)
 
